@@ -2,8 +2,8 @@
 PROP = {
     "props_files": ["Props/C20.v"],
     "jobs": [
-        {"component": "handle", "comp_num": 20, "quick": 2400, "thorough": 80000, "timeout": 3000},
-        {"component": "lazy", "comp_num": 200, "quick": 2400, "thorough": 80000, "timeout": 3000},
+        {"component": "handle", "comp_num": 20, "quick": 4000, "thorough": 80000, "timeout": 3000},
+        {"component": "lazy", "comp_num": 200, "quick": 4000, "thorough": 80000, "timeout": 3000},
     ],
     "design_ref": "DESIGN.md section 5, C20",
     "level_text": "Theorems (Coq, closed under the global context). HANDLES: on a Gallina transcription of robj/handle.rs over the "
